@@ -14,3 +14,6 @@ import PysersicModel.Render.Fourier
 import PysersicModel.Render.Decomp
 import PysersicModel.Render.Renderers
 import PysersicModel.Render.Tab
+import PysersicModel.Prob.Sky
+import PysersicModel.Prob.Prior
+import PysersicModel.Prob.Fitter
